@@ -369,6 +369,14 @@ func vfC06Scenarios(thorough bool) []*vfGWScenario {
 	rpeers := []vfPeerCfg{{Name: "a", Proto: "rs", IP: "10.0.0.1"}, {Name: "b", Proto: "rs", IP: "10.0.0.2"}, {Name: "c", Proto: "fs", IP: "10.0.0.3"}}
 	mk("random", "random", rpeers, false, connSub(rpeers, "ab"),
 		[]string{"join:t", "leave:t", "relay:t", "sub:c:t", "unsub:a:t", "sub:a:t", "disc:b", "pub:a:m1", "pub:b:m2", "pub:c:m3", "pub:a:m3", "lpub:t:p1", "lpub:t:p2:local"})
+	// one recipient has stopped reading and its queue (of one) is full: the copy for it is dropped, everybody else
+	// still gets theirs -- whichever of them the router happens to serve first
+	mk("flood-congested", "flood", fpeers, false, append(connSub(fpeers, "abc"), "join:t", "gate:a"),
+		[]string{"pub:b:m1", "pub:c:m3", "pub:b:m4", "lpub:t:p1", "lpub:t:p2", "lpub:t:p3", "ungate:a", "gate:b"})
+	out[len(out)-1].Cfg.QueueSize = 1
+	mk("random-congested", "random", rpeers, false, append(connSub(rpeers, "abc"), "join:t", "gate:a"),
+		[]string{"pub:b:m1", "pub:c:m3", "pub:b:m4", "lpub:t:p1", "lpub:t:p2", "lpub:t:p3", "ungate:a", "gate:b"})
+	out[len(out)-1].Cfg.QueueSize = 1
 	return out
 }
 
